@@ -207,7 +207,10 @@ def judge(out, op, res, bools, what, mip, soft=False, solver=None):
         else:   # x is a witness of feasibility: the reference solver is wrong, not EAO
             out.label("reference_wrongly_infeasible")
     elif st_ref == "optimal":
-        if abs(float(res.value) - v_ref) > tv:
+        if raw.bools and abs(float(res.value) - v_ref) > tv:
+            v_ref, lab = lpkit.second_opinion(raw, x_ref, v_ref, x, float(res.value), tv, tf)
+            out.label(lab)
+        if v_ref is not None and abs(float(res.value) - v_ref) > tv:
             out.fail("%s: reported value %.9g, reference optimum %.9g" % (what, float(res.value), v_ref))
     return st_ref
 
